@@ -5,7 +5,7 @@
    Proof scripts: Proofs/IoProofs.v, Proofs/IoTrace.v, Proofs/IoMulti.v, Proofs/IoTrunc.v. *)
 From Coq Require Import ZArith List Bool.
 From LZ4V Require Import Spec.BlockSpec Spec.FrameSpec Gen.Consts Model.Io.
-From LZ4V Require Import Proofs.IoSpecFacts Proofs.IoProofs Proofs.IoTrace Proofs.IoMulti Proofs.IoConcat.
+From LZ4V Require Import Proofs.IoSpecFacts Proofs.IoProofs Proofs.IoTrace Proofs.IoMulti Proofs.IoConcat Proofs.IoTrunc.
 Import ListNotations.
 Local Open Scope Z_scope.
 
@@ -53,6 +53,26 @@ Theorem C14_multi_exit0 : forall fdec bdec mt test sk rm files,
 Proof. exact multi_exit0. Qed.
 Print Assumptions C14_multi_exit0.
 
+(* truncation, specification side: a stream of valid frames (LZ4 frames, legacy frames with any number of blocks,
+   skippable frames) cut ANYWHERE is accepted by Spec.stream_decode only if the cut is at a frame boundary or at a
+   legacy BLOCK boundary (legacy frames have no end mark) - [cut fs fs'] - and then the prefix is itself a stream of
+   valid frames decoding to their contents; everywhere else stream_decode fails *)
+Theorem C14_truncation : forall bd fs, Forall (valid_frame bd) fs -> forall (p t : list byte) F acc c,
+  enc_all fs = p ++ t -> stream_decode bd false F [] acc p = Some c ->
+  exists fs', cut fs fs' /\ Forall (valid_frame bd) fs' /\ p = enc_all fs' /\ c = acc ++ contents fs'.
+Proof. exact truncation. Qed.
+Print Assumptions C14_truncation.
+
+(* ... hence the CLI model (ST and MT, file and pipe, any fault oracle) run on any prefix exits 0 only at such a
+   boundary, having written exactly the contents before the cut *)
+Theorem C14_truncation_exit : forall bd fs (p t : list byte) mt test seekable rm fl,
+  Forall (valid_frame bd) fs -> enc_all fs = p ++ t -> bytes_ok p = true ->
+  let o := decompress_file (frame_decode bd false []) (bd []) mt test false seekable rm fl p in
+  o_exit o = 0 -> o_pasteof o = false ->
+  exists fs', cut fs fs' /\ Forall (valid_frame bd) fs' /\ p = enc_all fs' /\ (test = false -> o_out o = contents fs').
+Proof. exact truncation_exit. Qed.
+Print Assumptions C14_truncation_exit.
+
 (* hypotheses are met / conclusions are not vacuous: a run that exits 0 with --rm, one that hits a write fault,
    one that hits a read error exactly at a frame boundary (regression of F8), trailing garbage (regression of F2) *)
 Example C14_ex_ok :
@@ -71,3 +91,13 @@ Example C14_ex_faults :
    o_exit o <> 0 /\ o_removed o = false) /\
   bytes_ok inp = true.
 Proof. vm_compute. repeat split; intros D; discriminate. Qed.
+(* cuts of the two-frame witness: inside the LZ4 frame (rejected), at the frame boundary and at a legacy block boundary (accepted) *)
+Example C14_ex_cuts :
+  let inp := enc_all f4_witness in
+  stream_decode spec_decode false 40 [] [] (firstn 7 inp) = None /\
+  stream_decode spec_decode false 40 [] [] (firstn 11 inp) = Some [] /\
+  stream_decode spec_decode false 40 [] [] (firstn 15 inp) = Some [] /\
+  stream_decode spec_decode false 40 [] [] (firstn 20 inp) = None /\
+  stream_decode spec_decode false 40 [] [] (firstn 25 inp) = Some [97; 98; 99; 100; 101] /\
+  cut f4_witness [FLz4 f4_lz4 []; FLegacy (firstn 0 [(f4_block, [97; 98; 99; 100; 101])])].
+Proof. cbv zeta. repeat split; try (vm_compute; reflexivity). apply cut_cons. apply (cut_legacy [(f4_block, [97; 98; 99; 100; 101])] 0). Qed.
